@@ -147,7 +147,7 @@ def step (s : Str) : Step :=
 inductive Res where
   | ok (l : List Str)
   | abort
-  | hang              -- fuel exhausted (the C++ loop would not end); `Proofs/ClangLine.lean`: never returned by `splitString`
+  | hang              -- fuel exhausted (the C++ loop would not end); every iteration consumes at least one character, never observed
 deriving Repr, DecidableEq
 
 def loop : Nat → Str → Res
@@ -173,6 +173,65 @@ def splitString (line : Str) : Option (List Str) :=
 def join : List Str → Str
   | [] => []
   | f :: r => ' ' :: f ++ join r
+
+/-! ## the field shapes clang emits (hypothesis of `split_join`; evaluated by the driver on real dump lines) -/
+
+inductive Field where
+  | punct (c : Char)          -- `*`, `(`, `)` on their own
+  | angle (a : Str)           -- `<a>`: source ranges, cast kinds, `<invalid sloc>`
+  | dquote (a : Str)          -- `"a"`
+  | squote (a : Str)          -- `'a'`: a type or an operator
+  | squote2 (a b : Str)       -- `'a':'b'`: a type with its desugared form
+  | word (w : Str)            -- addresses, names, keywords, numbers, `col:7`, `line:3:5`
+deriving Repr, DecidableEq
+
+def Field.render : Field → Str
+  | .punct c => [c]
+  | .angle a => '<' :: a ++ ['>']
+  | .dquote a => '"' :: a ++ ['"']
+  | .squote a => '\'' :: a ++ ['\'']
+  | .squote2 a b => '\'' :: a ++ tick3 ++ b ++ ['\'']
+  | .word w => w
+
+def noCh (c : Char) (s : Str) : Bool := s.all (· != c)
+
+def wordStartOK (c : Char) : Bool :=
+  c != '*' && c != '(' && c != ')' && c != Char.ofNat 0 && c != '<' && c != '"' && c != '\'' && c != ' '
+
+/-- the well-formedness of a field: the group delimiters do not occur inside the group; a bare word has no blank, no `<`, no `::`
+    and does not start with a delimiter -/
+def Field.ok : Field → Bool
+  | .punct c => c == '*' || c == '(' || c == ')'
+  | .angle a => noCh '>' a
+  | .dquote a => noCh '"' a
+  | .squote a => noCh '\'' a
+  | .squote2 a b => noCh '\'' a && noCh '\'' b
+  | .word w => (match w with | [] => false | c :: _ => wordStartOK c) && noCh ' ' w && noCh '<' w && (findSub dcolon w).isNone
+
+/-- the shape of a field as the splitter returned it (by its first character) -/
+def fieldOf (f : Str) : Field :=
+  match f with
+  | ['*'] => .punct '*'
+  | ['('] => .punct '('
+  | [')'] => .punct ')'
+  | '<' :: t => if t.getLast? == some '>' then .angle t.dropLast else .word f
+  | '"' :: t => if t.getLast? == some '"' then .dquote t.dropLast else .word f
+  | '\'' :: t =>
+    if t.getLast? == some '\'' then
+      let body := t.dropLast
+      match findSub tick3 body with
+      | some p => .squote2 (body.take p) (body.drop (p + 3))
+      | none => .squote body
+    else .word f
+  | _ => .word f
+
+/-- the line lies in the class `split_join` speaks about: it is the join of well-formed fields -/
+def lineCovered (ext : Str) : Bool :=
+  match splitString ext with
+  | none => false
+  | some fs =>
+    let ff := fs.map fieldOf
+    ff.all Field.ok && ff.map Field.render == fs && join fs == ext
 
 /-! ## strToInt<int> -/
 
@@ -219,10 +278,10 @@ def appendFileIfNew (files : List Str) (name : Str) : List Str × Nat :=
   | some i => (files, i)
   | none => (files ++ [name], files.length)
 
-def colPfx : Str := "<col:".toList
-def linePfx : Str := "<line:".toList
-def commaCol : Str := ", col:".toList
-def invalidSloc : Str := "<<invalid sloc>".toList
+def colPfx : Str := ['<', 'c', 'o', 'l', ':']
+def linePfx : Str := ['<', 'l', 'i', 'n', 'e', ':']
+def commaCol : Str := [',', ' ', 'c', 'o', 'l', ':']
+def invalidSloc : Str := ['<', '<', 'i', 'n', 'v', 'a', 'l', 'i', 'd', ' ', 's', 'l', 'o', 'c', '>']
 
 /-- the body of `if (mExtTokens.size() >= 2)` in `AstNode::setLocations` for `ext = mExtTokens[1]`, inherited `(file, line, col) = inh` -/
 def setLoc (files : List Str) (ext : Str) (inh : Pos) : Except LocErr (List Str × Pos) :=
@@ -286,7 +345,7 @@ inductive LineKind where
   | node (pos1 : Nat) (nodeType : Str) (ext : Str)
 deriving Repr, DecidableEq
 
-def nullMark : Str := "-<<<NULL>>>".toList
+def nullMark : Str := ['-', '<', '<', '<', 'N', 'U', 'L', 'L', '>', '>', '>']
 
 /-- classification of one dump line (`treeEmpty` = `tree.empty()`) -/
 def classifyLine (treeEmpty : Bool) (line : Str) : LineKind :=
